@@ -90,6 +90,15 @@ def check_interleave(rep, ix):
     incs = [n for n in walk_no_nested(f) if isinstance(n, ast.AugAssign) and _n(n.target) == 'self.frame_count']
     ok = len(incs) == 1 and isinstance(incs[0].op, ast.Add) and _n(incs[0].value) == 'num_frames'
     rep.ob('R-C13-INTERLEAVE', site, 'the frame count grows by the frames of this block', ok, found=';'.join(_n(i) for i in incs), node=f, module=bm)
+    # a block that is refused (the reader catches the exception, warns and completes the pass with what it has) must leave count
+    # and buffers as they were: no refusal is reachable once either has been changed
+    g_ab = cfgmod.CFG(f)
+    changes = [s_ for s_ in g_ab.stmts() if (isinstance(s_, ast.AugAssign) and _n(s_.target).startswith('self.')) or
+               any(isinstance(c.func, ast.Attribute) and c.func.attr in common.MUTATORS and _n(c.func.value).startswith('self.') for c in cfgmod.calls_at(s_))]
+    raises = [s_ for s_ in g_ab.stmts() if isinstance(s_, ast.Raise)]
+    late = [(c_, r_) for c_ in changes for r_ in raises if g_ab.path_avoiding(c_, r_, set(), skip_exc=True)]
+    rep.ob('R-C13-INTERLEAVE', site, 'a block is refused before anything of it is counted or stored', bool(changes) and not late,
+           found='; '.join(f'{_n(c_)[:40]} then {_n(r_)[:40]}' for c_, r_ in late[:2]), required='every raise precedes the first change of self.*', node=late[0][0] if late else f, module=bm)
     # purity: no other attribute of self is written; nothing block-derived is cached
     writes = sorted({n.attr for n in walk_no_nested(f) if isinstance(n, ast.Attribute) and isinstance(n.value, ast.Name) and n.value.id == 'self' and isinstance(n.ctx, ast.Store)})
     rep.ob('R-C13-INTERLEAVE', site, 'add_block keeps no per-block state besides the frame count', writes == ['frame_count'], found=str(writes),
